@@ -1238,6 +1238,8 @@ theorem config_components_not_terminated (c : Config α) : ComponentsNotTerminat
     · cases h
     · split at h
       · cases h
+      split at h
+      · cases h
       · split at h <;> cases h
 
 /-! ### Monotonicity of the concrete limits -/
